@@ -275,6 +275,33 @@ def replay(w):
             if not np.allclose(IA2, c * IA, rtol=1e-9, atol=0):
                 return True, 'amplitude does not scale with the IMF (factor %g, method %s): max rel diff %.3g' % (c, method, np.abs(IA2 / (c * IA) - 1).max())
             return False, 'ok'
+        if kind == 'set':
+            # a set of IMFs: strongly amplitude-modulated carriers followed by pure sinusoids.  Each column's estimates are those of the
+            # column transformed on its own, and rescaling one column leaves every column's phase / frequency unchanged.
+            sr, method, ncol = w['sr'], w['method'], w['ncol']
+            n = 1024
+            t = np.arange(n) / sr
+            cols = []
+            for q in range(ncol):
+                fc = [11.0, 37.0, 83.0, 23.0][q % 4] * sr / 1000.0
+                depth = w['depth'] if q < w['n_am'] else 0.0
+                cols.append((1 + depth * np.sin(2 * np.pi * (3.0 * sr / 1000.0) * t)) * np.cos(2 * np.pi * fc * t + 0.3 * q))
+            X = np.array(cols).T
+            IP, IF, IA = SPm.frequency_transform(X.copy(), sr, method)
+            for q in range(ncol):
+                ip1, if1, ia1 = SPm.frequency_transform(X[:, q].copy(), sr, method)
+                dph = np.abs(np.angle(np.exp(1j * (IP[:, q] - ip1[:, 0])))).max()
+                if dph > 1e-9 or not np.allclose(IF[:, q], if1[:, 0], rtol=1e-7, atol=1e-7) or not np.allclose(IA[:, q], ia1[:, 0], rtol=1e-9, atol=1e-12):
+                    return True, 'column %d of a %d-column set (method %s, %d amplitude-modulated columns of depth %g first) differs from the same IMF transformed alone: max phase diff %.3g rad, max freq diff %.3g' % (
+                        q, ncol, method, w['n_am'], w['depth'], dph, np.abs(IF[:, q] - if1[:, 0]).max())
+            c = w.get('c', 8.0)
+            Y = X.copy()
+            Y[:, -1] *= c
+            IP2, IF2, IA2 = SPm.frequency_transform(Y, sr, method)
+            dph = np.abs(np.angle(np.exp(1j * (IP - IP2)))).max()
+            if dph > 1e-9 or not np.allclose(IF, IF2, rtol=1e-7, atol=1e-7):
+                return True, 'rescaling the last IMF of the set by %g changes phase / frequency (method %s): max phase diff %.3g, max freq diff %.3g' % (c, method, dph, np.abs(IF - IF2).max())
+            return False, 'ok'
         if kind == 'roundtrip':
             sr = w['sr']
             f = np.array(w['f'], float)
@@ -321,7 +348,7 @@ def refute(tier, seed, emit):
                             emit.violation('%s:%s' % (cl, method), w, msg)
         if emit.full:
             return
-    emit.scope('scale factors 2^k (k in -6..6) and 3.7: phase and frequency unchanged, amplitude scales, for the three methods; amplitude_normalise invariant')
+    emit.scope('scale factors 2^k (k in -6..6) and 3.7: phase and frequency unchanged, amplitude scales, for the three methods; sets of 2-4 IMFs (amplitude-modulated carriers first, then sinusoids): every column as when transformed alone, rescaling one column changes no phase / frequency; amplitude_normalise invariant')
     for method in ('hilbert', 'nht', 'quad'):
         for c in [2.0 ** k for k in (-6, -1, 1, 6)] + [3.7]:
             emit.case(('scale', method, c), contract='frequency_transform')
@@ -329,6 +356,16 @@ def refute(tier, seed, emit):
             ok, msg = replay(w)
             if ok:
                 emit.violation('positive-rescaling:%s' % method, w, msg)
+    for method in ('hilbert', 'nht', 'quad'):
+        for ncol in (2, 3, 4):
+            for n_am, depth in ((1, 0.8), (2, 0.5), (0, 0.0)):
+                if n_am >= ncol:
+                    continue
+                emit.case(('set', method, ncol, n_am), contract='frequency_transform')
+                w = {'kind': 'set', 'method': method, 'sr': 1000, 'ncol': ncol, 'n_am': n_am, 'depth': depth}
+                ok, msg = replay(w)
+                if ok:
+                    emit.violation('columns-of-a-set-are-transformed-independently:%s' % method, w, msg)
     for c in (0.25, 2.0, 37.5):
         emit.case(('norm', c), contract='amplitude_normalise')
         ok, msg = replay({'kind': 'normalise', 'c': c})
